@@ -185,6 +185,13 @@ func (p *LogPredicate) Validate() error {
 	if err := p.ValuePredicate.Validate(); err != nil {
 		return err
 	}
+	// A topic is always exactly one word. Any other argument length can never match and has no
+	// representation in a filter query (see ToFilterQuery).
+	if p.LogValueRef.IsTopic() && p.ValuePredicate.Op == BytesEq && len(p.ValuePredicate.ByteArgs[0]) != Word {
+		return fmt.Errorf(
+			"BytesEq predicate for topic %d must have a 32-byte argument, got %d bytes",
+			p.LogValueRef.Offset, len(p.ValuePredicate.ByteArgs[0]))
+	}
 	return nil
 }
 
